@@ -3,7 +3,10 @@
    system and prints what the final state predicts; [run_pure] evaluates the
    pure functions.  Nothing here is used by the theorems. *)
 From AL Require Import Base.Str Base.Corr Proc.Sanitize Proc.ShellSel Proc.ExecOutcome Proc.ProcModel.
-From Coq Require Import ZArith.
+From Coq Require Export ZArith.
+
+(* bytes outside printable ASCII are written (ch n) in case files *)
+Definition ch (n : nat) : string := String (ascii_of_nat n) EmptyString.
 
 Record run_input := { ri_cap : nat; ri_wfs : list mwf; ri_trace : list event }.
 
